@@ -437,7 +437,37 @@ def _check_keyless_memos(prog: Program, res: Result):
                 res.violation("R13.9", f"{cq}.{mname}|{x}|{w.name}", prog.loc(w, w.node), w.qualname,
                               f"{c.name}.{mname}() returns early when {x} is already set, but {w.name}() changes {hit[:3]} (which {mname} reads) without resetting {x}: "
                               "after a second run on the same object the first run's result is handed out")
+    # lossy keys: a table kept on the object that is read back under a key passed through round / int / floor / // / % merges
+    # entries that belong to different inputs - which one is handed out depends on what was stored first
+    LOSSY = ("round", "int", "floor", "ceil", "math.floor", "math.ceil", "abs")
+    n_tab = 0
+    for cq, c in sorted(prog.classes.items()):
+        tables = {}
+        for mname, m in c.methods.items():
+            for n in ast.walk(m.node):
+                store = key = None
+                kind = None
+                if isinstance(n, ast.Call) and isinstance(n.func, ast.Attribute) and n.func.attr in ("get", "setdefault") and n.args:
+                    store, key, kind = n.func.value, n.args[0], ("read" if n.func.attr == "get" else "write")
+                elif isinstance(n, ast.Subscript):
+                    store, key, kind = n.value, n.slice, ("write" if isinstance(n.ctx, ast.Store) else "read")
+                ch = attr_chain(store) if store is not None else None
+                if ch and ch.startswith("self.") and ch.count(".") == 1:
+                    tables.setdefault(ch, []).append((kind, key, m, n))
+        for ch, uses in sorted(tables.items()):
+            if not (any(k == "read" for k, *_ in uses) and any(k == "write" for k, *_ in uses)):
+                continue
+            n_tab += 1
+            for kind, key, m, n in uses:
+                lossy = [x for x in ast.walk(key) if (isinstance(x, ast.Call) and attr_chain(x.func) in LOSSY) or (isinstance(x, ast.BinOp) and isinstance(x.op, (ast.FloorDiv, ast.Mod)))]
+                # an index computed for a list position (i // 12, i % 12 of a loop counter) is not a memo key: only keys built from parameters / attributes of float quantities
+                if lossy and any(isinstance(y, ast.Name) and y.id in m.params() for x in lossy for y in ast.walk(x)):
+                    res.ob("R13.9", f"{c.name}.{m.name}: {ch} is {kind} under the key {ast.unparse(key)[:40]}", False, prog.loc(m, n))
+                    res.violation("R13.9", f"{cq}.{m.name}|lossy-key|{ch}|{ast.unparse(key)[:40]}", prog.loc(m, n), m.qualname,
+                                  f"{c.name} keeps results in {ch} and {'reads' if kind == 'read' else 'stores'} them under {ast.unparse(key)[:60]}: the key merges different inputs "
+                                  f"({ast.unparse(lossy[0])[:40]} is not injective), so which result is handed out depends on what was stored first - on earlier calls and on the nominal inputs")
     res.count("keyless_memos", n_memo)
+    res.count("object_tables", n_tab)
 
 
 def _check_param_mutation(prog: Program, res: Result):
@@ -660,6 +690,9 @@ def _check_nominal_height(prog: Program, res: Result):
 
 M = "ghedesigner.manager"
 VARIANTS = [
+    Variant("search keeps the GHEs it built in a table keyed by the rounded height (after seeded C13_e)", "break",
+            [("ghedesigner.search_routines", "        self.calculated_temperatures = {}\n\n        if search:\n            self.selection_key, self.selected_coordinates = self.search()\n\n    def retrieve_flow", "        self.calculated_temperatures = {}\n        self.built = {}\n\n        if search:\n            self.selection_key, self.selected_coordinates = self.search()\n\n    def retrieve_flow"),
+             ("ghedesigner.search_routines", "        self.searchTracker.append([field_specifier, t_excess, max_hp_eft, min_hp_eft])\n\n        return t_excess\n\n    def search(self):\n        x_l_idx = 0", "        self.searchTracker.append([field_specifier, t_excess, max_hp_eft, min_hp_eft])\n        if self.built.get(round(h)) is None:\n            self.built[round(h)] = self.ghe\n\n        return t_excess\n\n    def search(self):\n        x_l_idx = 0")], "R13.9"),
     Variant("nested bi-rectangle domain memoised under a key without b_min (seeded C03_f)", "break",
             [("ghedesigner.domains", "def bi_rectangle_nested(", "_nested_domains: dict = {}\n\n\ndef bi_rectangle_nested("),
              ("ghedesigner.domains", "    # find the maximum number of boreholes as a float\n    n_2_max = (length_2 / b_min) + 1\n    n_2_min = (length_2 / b_max_2) + 1\n", "    key = (length_1, length_2, b_max_1, b_max_2, transpose)\n    if key in _nested_domains:\n        return _nested_domains[key]\n    # find the maximum number of boreholes as a float\n    n_2_max = (length_2 / b_min) + 1\n    n_2_min = (length_2 / b_max_2) + 1\n"),
